@@ -1056,3 +1056,27 @@ func init() {
 	reg("github.com/tidwall/gjson.bytesString", b2s)
 	reg("github.com/tidwall/gjson.stringBytes", s2b)
 }
+
+func init() {
+	// sort.Slice / SliceStable: insertion sort through the interpreted less function (stable)
+	ss := func(in *Interp, fr *Frame, fn *ssa.Function, a []Value) Value {
+		iv := a[0].(Iface)
+		sl, ok := iv.V.(Slice)
+		if !ok {
+			in.unsupported(fr, "sort.Slice of non-slice")
+		}
+		v := sl.v
+		less := func(i, j int) bool {
+			r := in.call(fr, a[1], []Value{cI(in, int64(i)), cI(in, int64(j))}, nil)
+			return in.condBool(fr, r.(*Term))
+		}
+		for i := 1; i < len(v); i++ {
+			for j := i; j > 0 && less(j, j-1); j-- {
+				v[j], v[j-1] = v[j-1], v[j]
+			}
+		}
+		return nil
+	}
+	reg("sort.Slice", ss)
+	reg("sort.SliceStable", ss)
+}
